@@ -6,6 +6,7 @@ implementation answered?  This is the correspondence check (tie 2).
 import Sqroot.Driver.ModelRoot
 import Sqroot.Driver.ModelPos
 import Sqroot.Driver.ModelScript
+import Sqroot.Driver.SchedTrace
 open Sqroot.Driver Sqroot.Model
 
 def modelLine (l : Line) : String :=
@@ -23,6 +24,7 @@ def modelLine (l : Line) : String :=
     | _, _, _ => "FAIL bad args"
   | "pos", [_, script] => cmp (modelPosResult script) l.rawRes
   | "script", [v, desc, stmts] => modelScriptLine v desc stmts l.rawRes
+  | "strace", [v, desc, progs, _] => straceLine v desc progs l.rawRes
   | _, _ => "skip"
 
 def main : IO Unit := do
